@@ -7,13 +7,17 @@ package main
 
 import (
 	"bytes"
+	"encoding/json"
 	"fmt"
 	"os"
 	"os/exec"
 	"path/filepath"
 	"regexp"
+	"runtime"
 	"sort"
 	"strings"
+	"sync"
+	"time"
 
 	"goa.design/goa/v3/http/codegen/openapi"
 
@@ -85,6 +89,101 @@ func writeBatchModule(dir, repo, stubs string) error {
 var diagRe = regexp.MustCompile(`^(?:\./)?(d\d+)/(\S+?\.go):(\d+):(?:(\d+):)? (.*)$`)
 var pkgRe = regexp.MustCompile(`^# tb/(d\d+)(/\S*)?`)
 
+// worker mode: the harness re-executes itself to evaluate and generate the designs of one
+// shard, so that a generator that hangs or overflows the stack (goa keeps global state and a
+// goroutine cannot be killed) costs one design, not the run.
+type workerLine struct {
+	Idx     int      `json:"idx"`
+	Start   bool     `json:"start,omitempty"`
+	Verdict *Verdict `json:"verdict,omitempty"`
+}
+
+func workerMain(casesFile, root string, shard, shards, from int, example bool) {
+	b, err := os.ReadFile(casesFile)
+	must(err)
+	var cases []DCase
+	must(json.Unmarshal(b, &cases))
+	enc := json.NewEncoder(os.Stdout)
+	for i, c := range cases {
+		if i%shards != shard || i < from {
+			continue
+		}
+		must(enc.Encode(workerLine{Idx: i, Start: true}))
+		normalizeDesign(c.Design)
+		v := generateOne(c.Design, filepath.Join(root, fmt.Sprintf("d%d", i)), example)
+		must(enc.Encode(workerLine{Idx: i, Verdict: &v}))
+	}
+}
+
+// perDesignTimeout bounds Eval+gen+example of one design (normally well under a second).
+var perDesignTimeout = 90 * time.Second
+
+func runShard(casesFile, root string, shard, shards int, example bool, vs []Verdict, n int) {
+	from := 0
+	for {
+		self, err := os.Executable()
+		must(err)
+		cmd := exec.Command(self, "-worker", "-cases", casesFile, "-root", root, "-shard", fmt.Sprint(shard), "-shards", fmt.Sprint(shards), "-from", fmt.Sprint(from), fmt.Sprintf("-example=%v", example))
+		cmd.Dir = root
+		stdout, err := cmd.StdoutPipe()
+		must(err)
+		var stderr bytes.Buffer
+		cmd.Stderr = &stderr
+		must(cmd.Start())
+		lines := make(chan workerLine)
+		go func() {
+			dec := json.NewDecoder(stdout)
+			for {
+				var l workerLine
+				if err := dec.Decode(&l); err != nil {
+					close(lines)
+					return
+				}
+				lines <- l
+			}
+		}()
+		cur, hung := -1, false
+	loop:
+		for {
+			select {
+			case l, ok := <-lines:
+				if !ok {
+					break loop
+				}
+				if l.Start {
+					cur = l.Idx
+				} else if l.Verdict != nil {
+					vs[l.Idx] = *l.Verdict
+					cur = -1
+				}
+			case <-time.After(perDesignTimeout):
+				hung = true
+				cmd.Process.Kill() // nolint: errcheck
+				break loop
+			}
+		}
+		werr := cmd.Wait()
+		if cur < 0 && !hung && werr == nil {
+			return // shard complete
+		}
+		if cur < 0 {
+			// died between designs: nothing to blame, stop the shard loudly
+			panic(fmt.Sprintf("design worker %d/%d failed outside a design: %v\n%s", shard, shards, werr, firstLines(stderr.String(), 20)))
+		}
+		os.RemoveAll(filepath.Join(root, fmt.Sprintf("d%d", cur)))
+		if hung {
+			vs[cur] = Verdict{Stage: "gen-hang", Msg: fmt.Sprintf("evaluating / generating the design did not finish within %s", perDesignTimeout)}
+		} else {
+			msg := firstLines(stderr.String(), 3)
+			if i := strings.Index(stderr.String(), "goroutine "); i > 0 {
+				msg = firstLines(stderr.String()[:i], 3)
+			}
+			vs[cur] = Verdict{Stage: "gen-crash", Msg: "the generator process died: " + strings.TrimSpace(msg)}
+		}
+		from = cur + 1
+	}
+}
+
 // runBatch evaluates, generates and builds every case; verdicts are index-aligned.
 func runBatch(cases []DCase, root, repo, stubs string, example bool) ([]Verdict, error) {
 	os.RemoveAll(root)
@@ -92,13 +191,39 @@ func runBatch(cases []DCase, root, repo, stubs string, example bool) ([]Verdict,
 		return nil, err
 	}
 	vs := make([]Verdict, len(cases))
-	for i, c := range cases {
-		vs[i] = generateOne(c.Design, filepath.Join(root, fmt.Sprintf("d%d", i)), example)
+	casesFile := filepath.Join(root, "cases.json")
+	cb, err := json.Marshal(cases)
+	if err != nil {
+		return nil, err
 	}
-	cmd := exec.Command("go", "build", "-gcflags=-e", "./...")
+	if err := os.WriteFile(casesFile, cb, 0o644); err != nil {
+		return nil, err
+	}
+	shards := runtime.NumCPU() / 2
+	if shards > 8 {
+		shards = 8
+	}
+	if shards < 1 {
+		shards = 1
+	}
+	if len(cases) < shards {
+		shards = len(cases)
+	}
+	var wg sync.WaitGroup
+	for k := 0; k < shards; k++ {
+		wg.Add(1)
+		go func(k int) {
+			defer wg.Done()
+			runShard(casesFile, root, k, shards, example, vs, len(cases))
+		}(k)
+	}
+	wg.Wait()
+	// `go list -export` compiles every package (type check + code generation) without linking the
+	// example binaries; diagnostics have the format of `go build`
+	cmd := exec.Command("go", "list", "-export", "-gcflags=-e", "-f", "{{.ImportPath}}", "./...")
 	cmd.Dir = root
 	var buf bytes.Buffer
-	cmd.Stdout, cmd.Stderr = &buf, &buf
+	cmd.Stderr = &buf
 	berr := cmd.Run()
 	out := buf.String()
 	os.WriteFile(filepath.Join(root, "build.log"), []byte(out), 0o644) // nolint: errcheck
@@ -123,7 +248,7 @@ func runBatch(cases []DCase, root, repo, stubs string, example bool) ([]Verdict,
 			byDir[cur][n] += " " + strings.TrimSpace(l)
 			continue
 		}
-		if strings.Contains(l, "too many errors") {
+		if strings.Contains(l, "too many errors") || strings.HasPrefix(l, "go: ") && strings.Contains(l, "finding module") {
 			continue
 		}
 		unattributed = append(unattributed, l)
@@ -249,4 +374,59 @@ func errClasses(v Verdict) []string {
 	}
 	sort.Strings(out)
 	return out
+}
+
+// normalizeDesign undoes what a JSON round trip does to the numbers of a design
+// description: Enum values of integer attributes come back as float64, which goa's DSL
+// refuses ("value 1 is incompatible with attribute of type int").
+func normalizeDesign(d *designgen.Design) {
+	isInt := func(t *designgen.Type) bool {
+		return t.Kind == "prim" && (strings.HasPrefix(t.Prim, "Int") || strings.HasPrefix(t.Prim, "UInt"))
+	}
+	fixV := func(v *designgen.Validation, t *designgen.Type) {
+		if v == nil || !isInt(t) {
+			return
+		}
+		for i, x := range v.Enum {
+			if f, ok := x.(float64); ok && f == float64(int(f)) {
+				v.Enum[i] = int(f)
+			}
+		}
+	}
+	var walk func(a *designgen.Attr)
+	walkT := func(t *designgen.Type) {
+		for _, f := range t.Attrs {
+			walk(&f.A)
+		}
+		if t.Elem != nil {
+			walk(t.Elem)
+		}
+		if t.Key != nil {
+			walk(t.Key)
+		}
+	}
+	walk = func(a *designgen.Attr) {
+		if a == nil {
+			return
+		}
+		fixV(a.V, &a.T)
+		walkT(&a.T)
+	}
+	for _, ut := range d.Types {
+		fixV(ut.V, &ut.Base)
+		walkT(&ut.Base)
+	}
+	for _, s := range d.Services {
+		for _, m := range s.Methods {
+			walk(m.Payload)
+			walk(m.Result)
+			walk(m.StreamingPayload)
+			walk(m.StreamingResult)
+			for _, e := range m.Errors {
+				if e.T != nil {
+					walkT(e.T)
+				}
+			}
+		}
+	}
 }
